@@ -227,6 +227,33 @@ impl<MutexType: RawMutex, T> ChannelReceiveAccess<T>
     }
 }
 
+#[cfg(futures_intrusive_verif)]
+impl<MutexType: RawMutex, T> GenericOneshotChannel<MutexType, T> {
+    /// Reports the internal state while holding the internal lock
+    pub fn verif_inspect(
+        &self,
+        visit: &mut dyn FnMut(crate::verif::Visit) -> bool,
+    ) {
+        use crate::verif::{PrimInfo, Visit};
+        let state = self.inner.lock();
+        let (head, tail) = state.waiters.verif_ends();
+        visit(Visit::Prim(PrimInfo {
+            head,
+            tail,
+            flag: state.is_fulfilled,
+            count: state.value.is_some() as u64,
+            ..Default::default()
+        }));
+        crate::verif::walk_list(
+            &state.waiters,
+            0,
+            visit,
+            &super::channel_future::verif_recv_node_info,
+        );
+        visit(Visit::Done);
+    }
+}
+
 // Export a non thread-safe version using NoopLock
 
 /// A [`GenericOneshotChannel`] which is not thread-safe.
@@ -336,6 +363,8 @@ mod if_alloc {
             MutexType: RawMutex,
         {
             fn drop(&mut self) {
+                #[cfg(futures_intrusive_verif)]
+                crate::verif::point(13);
                 // Close the channel, before last sender gets destroyed
                 // TODO: We could potentially avoid this, if no receiver is left
                 self.inner.channel.close();
@@ -347,6 +376,8 @@ mod if_alloc {
             MutexType: RawMutex,
         {
             fn drop(&mut self) {
+                #[cfg(futures_intrusive_verif)]
+                crate::verif::point(13);
                 // Close the channel, before last receiver gets destroyed
                 // TODO: We could potentially avoid this, if no sender is left
                 self.inner.channel.close();
@@ -408,6 +439,30 @@ mod if_alloc {
                     wait_node: ListNode::new(RecvWaitQueueEntry::new()),
                     _phantom: PhantomData,
                 }
+            }
+        }
+
+        #[cfg(futures_intrusive_verif)]
+        impl<MutexType, T> GenericOneshotSender<MutexType, T>
+        where
+            MutexType: RawMutex,
+            T: 'static,
+        {
+            /// The channel behind this handle
+            pub fn verif_channel(&self) -> &GenericOneshotChannel<MutexType, T> {
+                &self.inner.channel
+            }
+        }
+
+        #[cfg(futures_intrusive_verif)]
+        impl<MutexType, T> GenericOneshotReceiver<MutexType, T>
+        where
+            MutexType: RawMutex,
+            T: 'static,
+        {
+            /// The channel behind this handle
+            pub fn verif_channel(&self) -> &GenericOneshotChannel<MutexType, T> {
+                &self.inner.channel
             }
         }
 
